@@ -357,6 +357,19 @@ Theorem C16_variadic_single_function :
 Proof. exact variadic_single_function. Qed.
 Print Assumptions C16_variadic_single_function.
 
+(* Value.export is compositional: a sub-object referenced twice (no cycle) is
+   exported at both places, in objects and in arrays *)
+Theorem C16_export_shared_twice : forall f k1 k2 o g,
+  k1 < k2 -> export f o = Some g -> o <> JUndef ->
+  export (S f) (JObj [(k1, o); (k2, o)]) = Some (GVMap [(k1, g); (k2, g)]).
+Proof. exact export_shared_twice. Qed.
+Print Assumptions C16_export_shared_twice.
+
+Theorem C16_export_shared_in_array : forall f o g,
+  export f o = Some g -> export (S f) (JArr [Some o; Some o]) = Some (GVSlice [g; g]).
+Proof. exact export_shared_in_array. Qed.
+Print Assumptions C16_export_shared_in_array.
+
 (* non-vacuity of the implications above *)
 Example C16_exact_hyp_met :
   src_wf (KF64, 4617315517961601024) = true /\
